@@ -22,6 +22,7 @@
  *   s <tid> <label>              one line per step (sched_rt.c)
  *   ret <tid> <k> <rc> [<hex>]   return of the k-th call of thread tid (printed inside the step that ends it)
  *   c <loc>=<v>                  shared state changed by the step (diff against a shadow copy, sched_wrap_rb.c)
+ *   c ro <name> changed          a handle structure / word_size / ref_count / path name was stored to (never expected)
  *   end <0|1|2>                  all done / deadlock / step limit
  *   fin <wpt> <rpt> <sem> <hash> final shared state
  *   drain <rc> [<hex>]           (script line `drain', after a run that ended with 0) main thread: 64 extra tokens
@@ -42,6 +43,7 @@
 void rbc_detach(void);
 void rbc_attach(int k, void *hdr_wpt, void *data, uint32_t words, void *sem);
 void rbc_snapshot(void);
+void rbc_watch(const char *name, const void *addr, size_t len);
 int rbc_enabled(int tid, const int *done);
 void rbc_step(int tid);
 
@@ -234,6 +236,12 @@ int main(void)
 				rbc_attach(1, (void *)&rbB->shared_hdr->write_pt, rbB->shared_data, rbB->shared_hdr->word_size,
 					   nosem ? NULL : &rbB->shared_hdr->posix_sem);
 			rbc_snapshot();
+			/* nothing may store to these after qb_rb_open: the model has one word_size / notifier mode for both handles */
+			rbc_watch("handle[creator]", rbA, sizeof *rbA);
+			if (rbB != rbA) rbc_watch("handle[opener]", rbB, sizeof *rbB);
+			rbc_watch("hdr.word_size", &rbA->shared_hdr->word_size, sizeof rbA->shared_hdr->word_size);
+			rbc_watch("hdr.ref_count", &rbA->shared_hdr->ref_count, sizeof rbA->shared_hdr->ref_count);
+			rbc_watch("hdr.paths", rbA->shared_hdr->hdr_path, 2 * PATH_MAX);
 			for (t = 0; t < 2; t++) {
 				sch_spawn(thread_body, (void *)(intptr_t)t);
 			}
